@@ -47,6 +47,9 @@ var c13Cases = []faCase{
 	{name: "struct-field",
 		patch: "@@\nvar T identifier\n@@\n type T struct {\n   ...\n-  old int\n+  renewed int\n   ...\n }\n",
 		minus: "package p\n\n⟦type «T:Conf» struct {\n\ta string\n\told int\n\tb bool\n}⟧\n"},
+	{name: "assign-with-leading-elision",
+		patch: "@@\n@@\n-..., err := f()\n+..., err = f()\n",
+		minus: "package p\n\nfunc g() {\n\t⟦«d1:a, b», err := f()⟧\n\tuse(a, b, err)\n}\n\nfunc h() {\n\tpre()\n\t⟦«d1:c», err := f()⟧\n}\n"},
 	{name: "multi-line-call",
 		patch: "@@\nvar a, b expression\nvar c expression\n@@\n-pick(a,\n-  b, c)\n+pick2(c,\n+  a)\n",
 		minus: "package p\n\nvar v = ⟦pick(«a:1», «b:x», «c:z[0]»)⟧\n"},
@@ -476,7 +479,7 @@ func VerifC13Layout() {
 	nd.Assume(ok)
 	if nd.Param("TWO", 0) == 1 {
 		kind2 := nd.Choose("transform2", c13Kinds-1) // the final-newline variant only once
-		nd.Assume(!(kind <= 1 && kind2 <= 1))            // two insertions at independent places square the cost; each is covered alone and with every in-place transformation
+		nd.Assume(!(kind <= 1 && kind2 <= 1))        // two insertions at independent places square the cost; each is covered alone and with every in-place transformation
 		vs2, texts2, what2, ok2 := c13Transform(vs, kind2)
 		nd.Assume(ok2)
 		// line indexes of the first transformation's comments shift if the second inserted above them
